@@ -119,13 +119,13 @@ func VF_C06_Push() {
 	// the new documents: sseq e+1.., ids duid:sseq, Seq cx+1.. in order
 	for i := 0; i < acc; i++ {
 		od := w.store.Operations[before.nOps+i]
-		vf.Assert(vf.All(od.Sseq == st.e+uint64(i)+1, od.OpID.Seq == st.cx+uint64(i)+1, od.OpID.Seq == accSeq[i], od.DUID == vfDUID, od.CollectionNum == 1),
+		vf.Assert(vf.All(uint64(od.Sseq) == st.e+uint64(i)+1, od.OpID.Seq == st.cx+uint64(i)+1, od.OpID.Seq == accSeq[i], od.DUID == vfDUID, od.CollectionNum == 1),
 			"C06 accepted operations get consecutive server sequence numbers in issue order")
 	}
 	// no sseq stored twice
 	for i := 0; i < len(w.store.Operations); i++ {
 		for j := 0; j < i; j++ {
-			vf.Assert(w.store.Operations[i].Sseq != w.store.Operations[j].Sseq, "C06 no server sequence number is stored twice")
+			vf.Assert(uint64(w.store.Operations[i].Sseq) != uint64(w.store.Operations[j].Sseq), "C06 no server sequence number is stored twice")
 		}
 	}
 	// pulled operations: the stored entries after the request checkpoint, in log order
